@@ -2178,7 +2178,8 @@ fn noise_case<T, F>(run: &Run, name: &str, typ: T, sens: &BigUint, eps: &(String
 where
     F: KitField,
     F::Integer: IntConv,
-    T: Type<Field = F> + TypeWithNoise<PureDpDiscreteLaplace>,
+    T: Type<Field = F> + TypeWithNoise<PureDpDiscreteLaplace> + Clone,
+    T::AggregateResult: std::fmt::Debug,
 {
     if tl_fails() > NOISE_BASE.with(|c| c.get()) {
         return; // one failing case per epsilon job is reported
@@ -2202,10 +2203,12 @@ where
     ];
     let len = typ.output_len();
     let key = format!("noise/{name}/eps={}", eps.0);
-    let vdaf: P3<T> = match Prio3::new(2, 1, 0xFFFF_0015, typ) {
+    let vdaf0: P3<T> = match Prio3::new(2, 1, 0xFFFF_0015, typ) {
         Ok(v) => v,
         Err(e) => panic!("harness: Prio3::new failed for {name}: {e}"),
     };
+    // the aggregator that adds the noise works on a clone of the instance (as a worker holding its own copy does)
+    let vdaf: P3<T> = vdaf0.clone();
     let strategy = PureDpDiscreteLaplace::from_budget(PureDpBudget::new(eps.2.clone()).expect("positive epsilon"));
     let want_scale = Q::from_integer(sens.clone()) / &eps.1;
     for share_kind in 0..3usize {
@@ -2273,6 +2276,32 @@ where
                     json!({"type": name, "coordinate": i, "share": share0[i].to_string(), "noise": answers[i].to_string(), "got": got[i].to_string(), "want": want.to_string()}),
                 );
                 return;
+            }
+        }
+        // the collector: the noised share and an all-zero share of the other aggregator unshard to
+        // (aggregate + noise) mod p, coordinate by coordinate
+        {
+            use prio::vdaf::Collector;
+            let other = AggregateShare::from(vec![F::zero(); len]);
+            let n = num_meas.max(1);
+            let want: Vec<String> = (0..len).map(|i| floor_mod(&(BigInt::from(share0[i]) + floor_mod(&answers[i], &p)), &p).to_string()).collect();
+            let want = format!("[{}]", want.join(", "));
+            match catch(|| vdaf0.unshard(&(), [share.clone(), other], n)) {
+                Ok(Ok(r)) => {
+                    let got = format!("{:?}", r);
+                    if got != want {
+                        vfail(run, &format!("{key}/unshard_value"), &format!("{name}: the noised aggregate unshards to {got}, but (aggregate + noise) mod p = {want}"), json!({"type": name, "eps": eps.0}));
+                        return;
+                    }
+                }
+                Ok(Err(e)) => {
+                    vfail(run, &format!("{key}/unshard_refused"), &format!("{name}: unshard refused an aggregate share after noise was added ({e}); the result must be the aggregate plus the noise modulo the field size"), json!({"type": name, "eps": eps.0, "noise": answers.iter().map(|a| a.to_string()).collect::<Vec<_>>()}));
+                    return;
+                }
+                Err(m) => {
+                    vfail(run, &format!("{key}/unshard_panic"), &format!("{name}: unshard panicked on a noised aggregate share: {m}"), json!({"type": name}));
+                    return;
+                }
             }
         }
         run.distinct(fnv(format!("{key}/{share_kind}").as_bytes()));
